@@ -50,7 +50,7 @@ PROPS['C04'] = dict(
                     defs=dict(quick=['-DMAXN=4', '-DMAXO=4', '-DMAXD=6'], thorough=['-DMAXN=5', '-DMAXO=5', '-DMAXD=6']),
                     functions=['Derivative<n>::transform', 'Position<n>::transform', 'Position<n>::expandPower', 'IdentityOperator::transform', 'operators::transformSpline',
                                'operator*(Operator,Spline)', 'internal::faculty', 'internal::facultyRatio', 'internal::binomialCoefficient', 'Spline::operator=='])],
-    bounds=dict(quick='n = 0..6 for Dx<n>/X<n>, spline orders 0..4 (35 template pairs incl. n = order and n > order), every window of grids with 2..4 symbolic points (arbitrary spacing and distance from the origin); plus 100 sparse high pairs (n, order) in {0,1,3,5,8,13,20,21,22,25}^2 on the fixed rational interval [-3/2, 5/7] with symbolic coefficients and x (where factorials/binomials exceed 64-bit integers)',
+    bounds=dict(quick='n = 0..6 for Dx<n>/X<n>, spline orders 0..4 (35 template pairs incl. n = order and n > order), every window of grids with 2..4 symbolic points (arbitrary spacing and distance from the origin); the same operator objects applied alternately on two independent symbolic grids (n <= 3, order <= 2); plus 100 sparse high pairs (n, order) in {0,1,3,5,8,13,20,21,22,25}^2 on the fixed rational interval [-3/2, 5/7] with symbolic coefficients and x (where factorials/binomials exceed 64-bit integers)',
                 thorough='n = 0..6, orders 0..5, grids of 2..5 points'),
     outside='n and orders above the bound; floating-point rounding (C16)',
     assumptions=['grid points strictly increasing reals', 'exact real arithmetic (sym::Real), not IEEE'],
